@@ -9,12 +9,50 @@ ROOT = os.path.dirname(os.path.dirname(os.path.abspath(__file__)))
 sys.path.insert(0, os.path.join(ROOT, "bin"))
 import props  # noqa: E402
 
+COMMON = ("The property is stated on the TLA+ specification and model-checked by TLC within the listed bounds (negative controls: a named "
+          "deviation switch must make the theorem fail); the same bounded universe is emitted by TLC with the allowed outcome sets and replayed "
+          "through the real public API built from /repo's working tree; observations outside the allowed set are re-executed in a fresh process "
+          "before being reported. ")
 TEXT = {
-    "C01": ("Bounded-exhaustive model checking of the evaluator theorems on the TLA+ specification (Eval.tla), then "
-            "the same bounded universe of expressions x documents, spelled as source text by the specification, "
-            "replayed through the real Compile/Search and compared with the outcome sets TLC computed; recorded "
-            "API traces of the compliance corpus and of random deeper expressions are validated by TLC (Trace_Api).",
-            "6"),
+    "C01": (COMMON + "Oracle: Eval!Outcomes on ASTs spelled by Unparse (3 spellings); plus Trace_Api validation of recorded API traces (compliance "
+            "corpus + seeded deeper expressions) recomputed from the source text by the spec's own lexer/parser.", "6, 14.2"),
+    "C02": (COMMON + "Projection theorems (no nulls, length, order, permutation for object wildcards, one-level flatten); all chains of two projections "
+            "with the listed right-hand sides; small-step interpreter machine checked against the big-step semantics.", "6, 14.2"),
+    "C03": (COMMON + "The declarative precedence relation (Unparse) and the Pratt machine (Parser) are proved to agree on every tree with <= 3 operators; "
+            "minimal, fully parenthesised and mixed-whitespace spellings are replayed on documents that separate alternative groupings.", "6, 14.2"),
+    "C04": (COMMON + "Pratt machine = ABNF chart recogniser on ALL token strings up to length 4/5; every token string and single-token mutants of "
+            "sentences are given to the real Compile; strings derived only by the deviation production D1 are the one known finding.", "6, 14.2"),
+    "C05": (COMMON + "Totality of the lexer / parser / evaluator models on short inputs (no panic status, no read past eof); exhaustive short strings over "
+            "character classes, ASCII, boundary runes and invalid bytes; size amplification to 64 KiB and seeded fuzzing are exploration, not model checking.", "6, 10, 14.2"),
+    "C06": (COMMON + "Api.tla: no action writes a document (action property + invariant, negative control InPlaceSortBy); every replayed Search compares "
+            "deep and capacity-aware snapshots of the document before/after, on success and error paths, with document canaries.", "6, 14.2"),
+    "C07": (COMMON + "Truth table over all ordered pairs of the value universe for 6 comparators, ||, &&, !; short-circuiting checked by an erroring right "
+            "operand and, on the interpreter machine, by the ShortCircuit invariant.", "6, 14.2"),
+    "C08": (COMMON + "Declarative Python slicing = the code's capSlice formulation on the window (TLC); saturation lemma for all integers (Apalache, "
+            "thorough); window + boundary integers up to +-2^63 replayed.", "6, 14.2"),
+    "C09": (COMMON + "Per-function algebraic theorems (sorted permutation, stability, first extremal element, right-biased merge, ...) on the spec; every "
+            "typed value x every function form replayed; big whole numbers; recorded traces validated.", "6, 14.2"),
+    "C10": (COMMON + "Full name x arity x argument-type matrix incl. unknown names, variadic positions, expression references in value positions and "
+            "by-expression key types, with literal and document arguments.", "6, 14.2"),
+    "C11": (COMMON + "Strict!Reached defines structurally which positions are evaluated; theorem: a reached erroring sub-expression makes the whole an "
+            "error, an unreached one changes nothing; 38 contexts and their compositions replayed.", "6, 14.2"),
+    "C12": (COMMON + "HeapRace.tla: with the specified copy-on-sort no interleaving writes the shared cell and the reader returns its solo result; TLC "
+            "(Sched.tla) enumerates/samples interleavings of the measured hook points, replayed on real goroutines gated at the hooks; the Go race "
+            "detector observes the memory model on free-running goroutines.", "6, 10, 14.2"),
+    "C13": (COMMON + "Api.tla: HistoryIndependent over all histories (handle and reused Parser), negative controls InPlaceSortBy / NoIndexReset; every "
+            "history <= 4/5 replayed on one real object and compared with fresh objects and the one-shot Search.", "6, 14.2"),
+    "C14": (COMMON + "Lexer round-trip theorems (quoted identifier, raw string, literal, unquoted identifier membership, whitespace insignificance) for "
+            "every string up to 3/4 characters over character classes and every 2-character string over ASCII + boundary runes; the same spellings replayed.", "6, 14.2"),
+    "C15": (COMMON + "Pipe law and substitution theorem on the spec; metamorphic replay with both sides real (A|B vs B after A; C[A] vs C[`v`]), each "
+            "side also checked against the specification.", "6, 14.2"),
+    "C16": (COMMON + "IsJSON of every ok outcome is a theorem of the spec; the JSON-closure walk is applied to real results of the corner family and of "
+            "the C01/C02/C09 families.", "6, 14.2"),
+    "C17": (COMMON + "Offsets in range on the lexer / parser models; the Compile / SyntaxError / HighlightLocation / MustCompile contract checked on every "
+            "short string, token string and identifier context; predicted offsets compared as drift.", "6, 14.2"),
+    "C18": (COMMON + "GoValues.tla: typed values and their JSON abstraction J with the field rule; navigational expressions on 10 typed documents "
+            "compared with the spec on J(g); every function on typed values must not panic.", "6, 14.2"),
+    "C19": (COMMON + "Jpgo.tla: phases and failure sites with invariants and termination; the built binary is run on generated (expression, input, "
+            "channel) triples.", "6, 14.2"),
 }
 TECH = "TLA+ specification + TLC model checking, TLC-generated behaviours replayed into the code, recorded traces validated by TLC"
 NOTE = ("Trusted: TLC/SANY, the Json community module, encoding/json, the harness codec/comparator (canaries in every run). "
